@@ -57,6 +57,7 @@ pub fn run(ctx: &mut Ctx) {
     ctx.floor("versions", 256);
     ctx.floor("ts.bits", 64);
     ctx.floor("lencorrupt.cases", 50_000);
+    ctx.floor("max-count.lists", 6);
     ctx.floor("lencorrupt.accepted", 5_000);
 
     let n = ctx.tier.pick(32000, 320000);
@@ -104,6 +105,28 @@ pub fn run(ctx: &mut Ctx) {
         let mut input = w.b.clone();
         input.extend_from_slice(&[1, 2, 3]);
         list_case(ctx, &input, &l, w.b.len(), "list");
+    });
+
+
+    // lists with the MAXIMUM number of entries the u16 list length allows (all-minimal entries), and around it
+    ctx.sweep("max-entry-count", 6, |ctx, idx| {
+        let mut r = Rng::new(idx ^ 0x1337);
+        let n = [1337usize, 1336, 1286, 1285, 1024, 1300][idx as usize];
+        let l: Vec<ASct> = (0..n)
+            .map(|i| {
+                let mut s = gen::sct(&mut r, gen::TINY);
+                s.ext = vec![];
+                s.sig = if i % 64 == 63 && n < 1300 { vec![i as u8] } else { vec![] };
+                s
+            })
+            .collect();
+        let w = list_bytes(&l);
+        if w.b.len() <= 65537 {
+            let mut input = w.b.clone();
+            input.push(0xEE);
+            list_case(ctx, &input, &l, w.b.len(), "list");
+            ctx.count("max-count.lists");
+        }
     });
 
     // all versions, timestamp bits, all algorithm pairs
